@@ -36,6 +36,7 @@ type Stats struct {
 	TraceHashes                        []string
 	Workers                            int
 	Desc                               string
+	AutoYields                         int // decisions taken at scheduling points inserted by the autoyield instrumenter
 	// MapDep names the library routine whose Go-map iteration legitimately
 	// influences this case's execution order or bytes ("" = none): such a case is
 	// compared only on its order-free parts by the determinism self-test.
@@ -74,6 +75,11 @@ func (r *runner) absorb(res simsched.Result) {
 	}
 	if res.LockWaits > 0 {
 		r.st.probe("reduce lock contended")
+	}
+	for site, n := range res.Sites {
+		if strings.HasPrefix(site, "auto:") || strings.HasPrefix(site, "atomic:") {
+			r.st.AutoYields += n
+		}
 	}
 }
 
